@@ -155,8 +155,16 @@ Definition B2 := list B1.                                       (* MergeBodies o
 Definition I2 : BodyImpl jvalue B2 := merged_impl I1.
 Definition B3 := (B2 + ebody B2)%type.                          (* ... possibly under Expand *)
 Definition I3 : BodyImpl jvalue B3 := sum_impl I2 (expand_impl I2).
-Definition Btop := (B1 + B3)%type.
-Definition Itop : BodyImpl jvalue Btop := sum_impl I1 I3.
+(* dynblock.Expand of an Expand-wrapped body. The body of a block returned by a
+   STACK of two expandBody layers (Expand of a merge whose child is itself under
+   Expand; Expand applied to a merge / remainder with such children) is wrapped
+   once per layer (expandChild of the inner layer, then of the outer one): the
+   outer layer hands every call to the inner one, which decodes the dynamic
+   blocks again and repeats their diagnostics also on remaining bodies. *)
+Definition B4 := ebody B1.
+Definition I4 : BodyImpl jvalue B4 := expand_impl I1.
+Definition Btop := ((B1 + B3) + B4)%type.
+Definition Itop : BodyImpl jvalue Btop := sum_impl (sum_impl I1 I3) I4.
 
 (* constructors used by the generated files *)
 Definition At (n : string) (tag : Z) : attr jvalue := {| aname := n; aval := JLeaf tag |}.
@@ -167,10 +175,15 @@ Definition Nt (attrs : list (attr jvalue)) (blocks : list (block jvalue)) : B0 :
 Definition Js (j : jvalue) : B0 := inr {| jval := j; jhidden := [] |}.
 Definition Pl (b : B0) : B1 := inl b.
 Definition Xp (b : B0) : B1 := inr {| eorig := b; ehA := []; ehB := [] |}.
-Definition Single (b : B1) : Btop := inl b.
-Definition Mrg (l : list (mchild B1)) : Btop := inr (inl (merge_bodies l)).
+Definition Single (b : B1) : Btop := inl (inl b).
+Definition Mrg (l : list (mchild B1)) : Btop := inl (inr (inl (merge_bodies l))).
 Definition XMrg (l : list (mchild B1)) : Btop :=
-  inr (inr {| eorig := merge_bodies l; ehA := []; ehB := [] |}).
+  inl (inr (inr {| eorig := merge_bodies l; ehA := []; ehB := [] |})).
+Definition XX (b : B0) : Btop := inr {| eorig := Xp b; ehA := []; ehB := [] |}.
+(* the Body of a returned block under [depth] expandBody layers (the harness
+   derives the depth from the history: layers over the file the block is in) *)
+Definition child_body (depth : Z) (b0 : B0) : Btop :=
+  if depth <=? 0 then Single (Pl b0) else if depth =? 1 then Single (Xp b0) else XX b0.
 Definition Sch (attrs : list (string * bool)) (blocks : list (string * Z)) : schema :=
   {| sattrs := attrs; sblocks := blocks |}.
 
@@ -237,14 +250,13 @@ Definition ja_ok (r : list (attr jvalue) * list diag) (o : list string * list di
 
 Definition ja_obs := (list string * list diag)%type.
 
-(* Content(child schema) on the Body of a returned block; the flag says whether
-   the Go body is a dynblock expandBody *)
-Definition child_obs := (bool * obs)%type.
+(* Content(child schema) on the Body of a returned block; the number says how
+   many dynblock expandBody layers wrap the Go body (0, 1 or 2) *)
+Definition child_obs := (Z * obs)%type.
 
 Definition child_ok (cs : schema) (bl : block jvalue) (o : child_obs) : bool :=
-  let b0 := decode_child (bbody bl) in
-  let b1 : B1 := if fst o then Xp b0 else Pl b0 in
-  let '(c, d) := b_content I1 cs b1 in obs_ok c d (snd o).
+  let b := child_body (fst o) (decode_child (bbody bl)) in
+  let '(c, d) := b_content Itop cs b in obs_ok c d (snd o).
 
 Definition children_ok (cs : schema) (bls : list (block jvalue)) (os : list child_obs) : bool :=
   Nat.eqb (List.length bls) (List.length os)
@@ -265,22 +277,21 @@ Inductive top :=
 | TContent (on : Z) (s : schema) (o : obs)
 | TJust (on : Z) (ja : ja_obs)
 | TExpand (on : Z)                                        (* appends dynblock.Expand(body) *)
-| TChild (on : Z) (partial : bool) (s : schema) (k : Z) (expanded : bool).
-    (* appends the Body of block k of PartialContent/Content s; expanded: the Go body is an expandBody *)
+| TChild (on : Z) (partial : bool) (s : schema) (k : Z) (depth : Z).
+    (* appends the Body of block k of PartialContent/Content s; depth: expandBody layers around the Go body *)
 
 (* dynblock.Expand of a body of the universe (an expandBody is never wrapped again) *)
 Definition expand_top (b : Btop) : option Btop :=
   match b with
-  | inl (inl b0) => Some (inl (inr {| eorig := b0; ehA := []; ehB := [] |}))
-  | inr (inl m) => Some (inr (inr {| eorig := m; ehA := []; ehB := [] |}))
+  | inl (inl (inl b0)) => Some (Single (inr {| eorig := b0; ehA := []; ehB := [] |}))
+  | inl (inr (inl m)) => Some (inl (inr (inr {| eorig := m; ehA := []; ehB := [] |})))
   | _ => None
   end.
 
-Definition child_top (b : Btop) (partial : bool) (s : schema) (k : Z) (expanded : bool) : option Btop :=
+Definition child_top (b : Btop) (partial : bool) (s : schema) (k : Z) (depth : Z) : option Btop :=
   let c := if partial then fst (fst (b_partial Itop s b)) else fst (b_content Itop s b) in
   match nth_error (cblocks c) (Z.to_nat k) with
-  | Some bl => let b0 := decode_child (bbody bl) in
-               Some (Single (if expanded then Xp b0 else Pl b0))
+  | Some bl => Some (child_body depth (decode_child (bbody bl)))
   | None => None
   end.
 
@@ -358,15 +369,13 @@ Definition check_body_cases (cs : list case) : list Z := failing check_body_case
 
 (* what the model says for one case (to print a disagreement) *)
 Definition mobs := (list string * list (string * list string) * list diag)%type.
-Definition model_children (cs : schema) (flags : list bool) (bls : list (block jvalue)) : list mobs :=
-  map (fun p : block jvalue * bool =>
-         let b0 := decode_child (bbody (fst p)) in
-         let b1 : B1 := if snd p then Xp b0 else Pl b0 in
-         let cd := b_content I1 cs b1 in
+Definition model_children (cs : schema) (flags : list Z) (bls : list (block jvalue)) : list mobs :=
+  map (fun p : block jvalue * Z =>
+         let cd := b_content Itop cs (child_body (snd p) (decode_child (bbody (fst p)))) in
          ((map aname (cattrs (fst cd)), map (fun bl => (btype bl, blabels bl)) (cblocks (fst cd)), snd cd) : mobs))
       (combine bls flags).
 
-Fixpoint model_steps (cs : schema) (b : Btop) (steps : list (schema * list bool)) (last : schema * list bool)
+Fixpoint model_steps (cs : schema) (b : Btop) (steps : list (schema * list Z)) (last : schema * list Z)
   : list (mobs * ja_obs * list mobs) :=
   match steps with
   | [] => let '(c, d) := b_content Itop (fst last) b in
